@@ -1,6 +1,6 @@
 (* Dispatcher from check id to check function. *)
 From Coq Require Import ZArith List Bool.
-From DG Require Import CaseFormat Check20 Check01 Check04.
+From DG Require Import CaseFormat Check20 Check01 Check04 Check19.
 Import ListNotations.
 Local Open Scope Z_scope.
 
@@ -8,6 +8,12 @@ Definition check_case (id : Z) (fs : list field) : verdict :=
   if id =? 101 then check_101 fs else
   if id =? 102 then check_102 fs else
   if id =? 401 then check_401 fs else
+  if id =? 1901 then check_1901 fs else
+  if id =? 1902 then check_1902 fs else
+  if id =? 1903 then check_1903 fs else
+  if id =? 1904 then check_1904 fs else
+  if id =? 1905 then check_1905 fs else
+  if id =? 1906 then check_1906 fs else
   if id =? 2001 then check_2001 fs else
   if id =? 2002 then check_2002 fs else
   if id =? 2003 then check_2003 fs else
